@@ -574,8 +574,29 @@ func (r *RowCache) uuidsByConditionsAsIndexes(conditions []ovsdb.Condition, nati
 		if err != nil {
 			return nil, err
 		}
-		for _, conditions := range conditions {
-			err := info.SetField(conditions.column, conditions.nativeValue)
+		for _, condition := range conditions {
+			nativeValue := condition.nativeValue
+			if len(condition.keys) > 0 {
+				// several conditions can address different keys of the same
+				// map column, accumulate them instead of overwriting
+				current, err := info.FieldByColumn(condition.column)
+				if err != nil {
+					return nil, err
+				}
+				cv := reflect.ValueOf(current)
+				nv := reflect.ValueOf(nativeValue)
+				if cv.Kind() == reflect.Map && cv.Len() > 0 && cv.Type() == nv.Type() {
+					merged := reflect.MakeMapWithSize(cv.Type(), cv.Len()+nv.Len())
+					for _, k := range cv.MapKeys() {
+						merged.SetMapIndex(k, cv.MapIndex(k))
+					}
+					for _, k := range nv.MapKeys() {
+						merged.SetMapIndex(k, nv.MapIndex(k))
+					}
+					nativeValue = merged.Interface()
+				}
+			}
+			err := info.SetField(condition.column, nativeValue)
 			if err != nil {
 				return nil, err
 			}
